@@ -52,6 +52,8 @@ type rec struct {
 
 var caps = []int{0, 1, 2, 64}
 
+var hangs int
+
 func lexOnce(input string, capacity int) ([]tok, bool) {
 	done := make(chan []tok, 1)
 	go func() {
@@ -68,7 +70,13 @@ func lexOnce(input string, capacity int) ([]tok, bool) {
 	select {
 	case out := <-done:
 		return out, len(out) <= 4*len(input)+16
-	case <-time.After(10 * time.Second):
+	case <-time.After(3 * time.Second):
+		hangs++
+		if hangs >= 4 { // the lexer does not terminate / close its channel: report what we have and stop
+			w.Flush()
+			json.NewEncoder(os.Stderr).Encode(map[string]interface{}{"emitted": count, "aborted": "lexer.New did not close its channel for 4 inputs"})
+			os.Exit(0)
+		}
 		return nil, false
 	}
 }
